@@ -8,7 +8,11 @@
 //!  C. literal spellings generated from the documented grammar vs the value
 //!     the generator started from and the Lean decoder;
 //!  D. identifiers (XID_Start|_ XID_Continue*, not a keyword);
-//!  E. comments and a leading shebang.
+//!  E. comments and a leading shebang;
+//!  F. bracketed constructs × mode-switching tokens (`src/c09/lookahead.rs`):
+//!     every leaf kind at every position of every bracketed construct, real
+//!     parse tree vs printed tree vs the Lean look-ahead model, values on the
+//!     JIT; literal spellings in `return` / block / parenthesis positions.
 //!
 //! usage: c09 run <seed> <quick|thorough>
 //!        c09 replay <json>
@@ -19,6 +23,9 @@ use rotov_harness::driver::Driver;
 use rotov_harness::{Prng, Report};
 use serde_json::{Value, json};
 use std::net::{IpAddr, Ipv4Addr, Ipv6Addr};
+
+#[path = "../c09/lookahead.rs"]
+mod lookahead;
 
 // ------------------------------------------------------------------ operators
 
@@ -944,6 +951,33 @@ fn run_literal(c: &LitCase) -> Result<String, String> {
     })
 }
 
+/// `fn main(…) -> T { BODY }` with BODY one expression: the same expression as a
+/// returned value, in a block, in parentheses, bound by `let`, in both
+/// branches of an `if`, and as a match arm.
+fn position_variants(src: &str) -> Vec<(&'static str, String)> {
+    let (Some(i), Some(j)) = (src.find("{ "), src.rfind(" }")) else { return vec![] };
+    if j < i + 2 {
+        return vec![];
+    }
+    let (head, body) = (&src[..i + 2], &src[i + 2..j]);
+    if body.contains("let ") {
+        return vec![];
+    }
+    [
+        ("return", format!("return {body}")),
+        ("return-statement", format!("return {body};")),
+        ("block", format!("{{ {body} }}")),
+        ("compact-block", format!("{{{body}}}")),
+        ("parentheses", format!("({body})")),
+        ("let", format!("let t = {body}; t")),
+        ("if-branches", format!("if true {{ {body} }} else {{ {body} }}")),
+        ("match-arm", format!("match Option.Some(1) {{ Some(v) => {body}, None => {body} }}")),
+    ]
+    .into_iter()
+    .map(|(n, b)| (n, format!("{head}{b} }}")))
+    .collect()
+}
+
 fn check_literal(rep: &mut Report, drv: &mut Driver, c: &LitCase) {
     rep.evaluations += 1;
     rep.class(c.class.clone());
@@ -969,6 +1003,24 @@ fn check_literal(rep: &mut Report, drv: &mut Driver, c: &LitCase) {
     }
     if rep.samples.len() < 8 && rep.evaluations % 97 == 0 {
         rep.sample(json!({"literal": c.lit, "expect": c.expect, "real": real.clone().unwrap_or_else(|e| e.chars().take(80).collect())}));
+    }
+    // the same spelling in the other expression positions of a function body
+    if real.as_ref().ok() == Some(&c.expect) {
+        for (pos, src) in position_variants(&c.src) {
+            rep.evaluations += 1;
+            rep.class(format!("{}|in-{pos}", c.class));
+            rep.hist("literal-position", pos);
+            let v = LitCase { kind: c.kind, lit: c.lit.clone(), src, ret: c.ret.clone(), expect: c.expect.clone(), lean: None, parse: None, class: String::new() };
+            let got = run_literal(&v);
+            if got.as_ref().ok() != Some(&c.expect) {
+                rep.violation(
+                    "a literal that denotes the documented value as a function's last expression is rejected / denotes another value in another expression position",
+                    &format!("literal-{}-in-{pos}", c.kind),
+                    json!({"case": {"kind": "literal", "lit_kind": format!("{}-in-{pos}", c.kind), "src": v.src, "ret": c.ret, "expect": c.expect},
+                           "got": format!("{got:?}").chars().take(300).collect::<String>(), "literal": c.lit}),
+                );
+            }
+        }
     }
     // the parse hook's decoded literal
     if let (Some(want), false) = (&c.parse, c.src.contains("{ -")) {
@@ -1166,6 +1218,9 @@ fn run(seed: u64, thorough: bool) -> Report {
     let mut drv = Driver::spawn().expect("lean driver");
     let mut p = Prng::new(seed);
 
+    // F. bracketed constructs × mode-switching tokens (boundary tables first)
+    lookahead::run(&mut rep, &mut drv, &mut p, thorough);
+
     // A. operator sequences
     let mut seqs = vec![];
     exhaustive_seqs(4, &[""], &mut seqs);
@@ -1317,7 +1372,11 @@ fn replay(case: &Value) -> Report {
                 rep.violation("comments / a leading shebang line change the meaning of a script", key, json!({"kind": "comments", "src": src}));
             }
         }
-        other => rep.notes.push(format!("unknown replay kind {other}")),
+        other => {
+            if !lookahead::replay(&mut rep, case) {
+                rep.notes.push(format!("unknown replay kind {other}"));
+            }
+        }
     }
     let _ = unhex;
     rep
